@@ -152,3 +152,268 @@ pub proof fn lemma_sign_prod()
     }
 }
 } // verus!
+verus! {
+/// e divides x and y  ==>  e divides |a x + b y|
+pub proof fn lemma_dvd_lincomb(e: nat, x: nat, y: nat, a: int, b: int)
+    requires dvd(e, x), dvd(e, y)
+    ensures dvd(e, iabs(a * x + b * y) as nat)
+{
+    let kx = lemma_dvd_witness(e, x); let ky = lemma_dvd_witness(e, y);
+    let k = a * kx + b * ky;
+    // a x + b y == e * k
+    lemma_mul_assoc(a, e as int, kx as int); lemma_mul_comm(a, e as int); lemma_mul_assoc(e as int, a, kx as int);
+    lemma_mul_assoc(b, e as int, ky as int); lemma_mul_comm(b, e as int); lemma_mul_assoc(e as int, b, ky as int);
+    lemma_distrib_l(e as int, a * kx, b * ky);
+    assert(a * x + b * y == e * k);
+    if k >= 0 { lemma_mul_nonneg(e as int, k); lemma_dvd_mul(e, k as nat); }
+    else { lemma_mul_neg(e as int, -k); lemma_mul_nonneg(e as int, -k); lemma_dvd_mul(e, (-k) as nat); }
+}
+
+/// a unimodular integer map (followed by absolute values) preserves the gcd
+pub proof fn lemma_gcd_unimod(x: nat, y: nat, a: int, b: int, c: int, d: int, x2: nat, y2: nat)
+    requires unimod(a, b, c, d), x2 == iabs(a * x + b * y), y2 == iabs(c * x + d * y)
+    ensures gcd_spec(x2, y2) == gcd_spec(x, y)
+{
+    let g = gcd_spec(x, y); let g2 = gcd_spec(x2, y2);
+    lemma_gcd_spec(x, y); lemma_gcd_spec(x2, y2);
+    let u = a * x + b * y; let v = c * x + d * y;
+    // inverse map: d u - b v == det x, a v - c u == det y
+    assert(d * (a * x + b * y) - b * (c * x + d * y) == (a * d - b * c) * x) by (nonlinear_arith);
+    assert(a * (c * x + d * y) - c * (a * x + b * y) == (a * d - b * c) * y) by (nonlinear_arith);
+    let det = a * d - b * c;
+    // in terms of the absolute values x2, y2 with signs su, sv
+    let su: int = if u >= 0 { 1 } else { -1 }; let sv: int = if v >= 0 { 1 } else { -1 };
+    assert(u == su * x2) by { lemma_mul_one(x2 as int); lemma_mul_neg(1, x2 as int); }
+    assert(v == sv * y2) by { lemma_mul_one(y2 as int); lemma_mul_neg(1, y2 as int); }
+    lemma_mul_assoc(d, su, x2 as int); lemma_mul_assoc(b, sv, y2 as int);
+    lemma_mul_assoc(a, sv, y2 as int); lemma_mul_assoc(c, su, x2 as int);
+    assert(det * x == (d * su) * x2 + (-(b * sv)) * y2) by { lemma_mul_neg(b * sv, y2 as int); }
+    assert(det * y == (-(c * su)) * x2 + (a * sv) * y2) by { lemma_mul_neg(c * su, x2 as int); }
+    assert(iabs(det * x) == x && iabs(det * y) == y) by { lemma_mul_one(x as int); lemma_mul_one(y as int); lemma_mul_neg(1, x as int); lemma_mul_neg(1, y as int); }
+    if x == 0 && y == 0 {
+        lemma_mul_one(a); lemma_mul_one(b); lemma_mul_one(c); lemma_mul_one(d);
+        assert(x2 == 0 && y2 == 0);
+    } else {
+        if x2 == 0 && y2 == 0 {
+            lemma_mul_one(d * su); lemma_mul_one(-(b * sv)); lemma_mul_one(-(c * su)); lemma_mul_one(a * sv);
+            assert(false);
+        }
+        assert(g > 0 && g2 > 0);
+        lemma_dvd_lincomb(g, x, y, a, b); lemma_dvd_lincomb(g, x, y, c, d);
+        assert(dvd(g, x2) && dvd(g, y2));
+        assert(g2 % g == 0);
+        lemma_dvd_lincomb(g2, x2, y2, d * su, -(b * sv)); lemma_dvd_lincomb(g2, x2, y2, -(c * su), a * sv);
+        assert(dvd(g2, x) && dvd(g2, y));
+        assert(g % g2 == 0);
+        lemma_dvd_antisym(g, g2);
+    }
+}
+
+pub proof fn lemma_dvd_antisym(a: nat, b: nat)
+    requires a > 0, b > 0, a % b == 0, b % a == 0
+    ensures a == b
+{
+    let k = lemma_dvd_witness(b, a); let j = lemma_dvd_witness(a, b);
+    // a == b k, b == a j
+    if k == 0 { lemma_mul_one(b as int); }
+    if j == 0 { lemma_mul_one(a as int); }
+    if k >= 2 { lemma_mul_le(2, k as int, b as int); lemma_mul_comm(b as int, k as int); }
+    if j >= 2 { lemma_mul_le(2, j as int, a as int); lemma_mul_comm(a as int, j as int); }
+    lemma_mul_one(a as int); lemma_mul_one(b as int);
+}
+
+/// a non-negative d with the gcd properties is the recursive gcd
+pub proof fn lemma_is_gcd_spec(d: int, a: nat, b: nat)
+    requires is_gcd(d, a as int, b as int)
+    ensures d == gcd_spec(a, b) as int
+{
+    lemma_gcd_spec(a, b);
+    let g = gcd_spec(a, b);
+    if a == 0 && b == 0 {
+        assert(g == 0);
+    } else {
+        assert(g > 0 && d > 0);
+        assert(dvd(d as nat, a) && dvd(d as nat, b));
+        assert(g % (d as nat) == 0);
+        assert((a as int) % (g as int) == 0 && (b as int) % (g as int) == 0);
+        assert(d % (g as int) == 0);
+        lemma_dvd_antisym(d as nat, g);
+    }
+}
+
+/// Bezout + divides both  ==>  gcd
+pub proof fn lemma_bezout_is_gcd(g: int, u: int, v: int, a: nat, b: nat)
+    requires g >= 1, u * a + v * b == g, (a as int) % g == 0, (b as int) % g == 0
+    ensures g == gcd_spec(a, b) as int
+{
+    lemma_gcd_spec(a, b);
+    let gs = gcd_spec(a, b);
+    assert(a > 0 || b > 0) by { if a == 0 && b == 0 { lemma_mul_one(u); lemma_mul_one(v); } }
+    assert(dvd(g as nat, a) && dvd(g as nat, b));
+    assert(gs % (g as nat) == 0);
+    lemma_dvd_lincomb(gs, a, b, u, v);
+    assert(dvd(gs, g as nat));
+    lemma_dvd_antisym(g as nat, gs);
+}
+} // verus!
+verus! {
+pub proof fn lemma_gcd_swap(x: nat, y: nat)
+    ensures gcd_spec(y, x) == gcd_spec(x, y)
+{
+    lemma_mul_one(x as int); lemma_mul_one(y as int);
+    lemma_gcd_unimod(x, y, 0, 1, 1, 0, y, x);
+}
+
+/// the rounding-up Euclid step: (x, y) -> (y, y - r) with r = x mod y
+pub proof fn lemma_gcd_euclid_up(x: nat, y: nat)
+    requires y > 0
+    ensures gcd_spec(y, (y - x % y) as nat) == gcd_spec(x, y), gcd_spec(y, x % y) == gcd_spec(x, y)
+{
+    let q = x / y; let r = x % y;
+    vstd::arithmetic::div_mod::lemma_fundamental_div_mod(x as int, y as int);
+    lemma_mul_one(x as int); lemma_mul_one(y as int);
+    lemma_distrib_r(q as int, 1, y as int); lemma_mul_comm(y as int, q as int);
+    lemma_mul_neg(1, x as int);
+    // -x + (q + 1) y == y - r
+    assert((-1) * (x as int) + (q + 1) * (y as int) == y - r);
+    assert(unimod(0, 1, -1, (q + 1) as int)) by { lemma_mul_one((q + 1) as int); lemma_mul_neg(1, 1); }
+    lemma_gcd_unimod(x, y, 0, 1, -1, (q + 1) as int, y, (y - r) as nat);
+}
+
+/// bit length zero means zero
+pub proof fn lemma_bitlen_zero(x: nat)
+    requires bitlen(x) == 0
+    ensures x == 0
+{}
+
+/// preconditions of the two `dot_product` calls of the lattice step of gcd_internal
+pub proof fn lemma_lattice_pre(nn: nat, lx: nat, ly: nat, bits: nat, xv: nat, yv: nat, a: int, b: int, size: nat)
+    requires
+        bitlen(xv) == lx, bitlen(yv) == ly, bits >= lx, bits >= ly, lx + 36 < 64 * nn, ly + 36 < 64 * nn, bits + 36 < 64 * nn,
+        iabs(a) <= lim36(), iabs(b) <= lim36(), size == (bits + 63) / 64,
+    ensures
+        size <= nn, xv < super::limbs::pow_w(size), yv < super::limbs::pow_w(size),
+        iabs(a) * (xv as int) + iabs(b) * (yv as int) < super::limbs::pow_w(nn),
+{
+    lemma_bitlen_bound(xv, lx); lemma_bitlen_bound(yv, ly);
+    super::modarith::lemma_pow_w_is_pow2(size); super::modarith::lemma_pow_w_is_pow2(nn);
+    if lx < 64 * size { lemma_pow2_strictly_increases(lx, 64 * size); }
+    if ly < 64 * size { lemma_pow2_strictly_increases(ly, 64 * size); }
+    let top = (64 * nn - 37) as nat;
+    if lx < top { lemma_pow2_strictly_increases(lx, top); }
+    if ly < top { lemma_pow2_strictly_increases(ly, top); }
+    // 2^36 * 2^top == 2^(64 nn - 1), twice that is 2^(64 nn)
+    lemma2_to64();
+    assert(pow2(36) == 0x10_0000_0000) by { lemma_pow2_adds(32, 4); }
+    lemma_pow2_adds(36, top);
+    lemma_pow2_unfold(64 * nn);
+    let h = pow2(top) as int;
+    lemma_mul_le2(iabs(a), lim36(), xv as int, h - 1);
+    lemma_mul_le2(iabs(b), lim36(), yv as int, h - 1);
+    lemma_distrib_l(lim36(), h, -1); lemma_mul_one(lim36());
+}
+} // verus!
+verus! {
+use super::modarith::*;
+
+/// Bezout relation modulo m: a n + b p = x (mod m). With m = 2^(64 N) this is what the wrapping cofactor arithmetic of
+/// gcd_internal maintains; it is the exact identity whenever the cofactors are small enough for the left side not to wrap.
+pub open spec fn bezm(a: int, b: int, n: int, p: int, x: int, m: int) -> bool { cong(a * n + b * p, x, m) }
+
+/// r = t1 + t2, t1 = v1, t2 = v2 (mod m)  ==>  r = v1 + v2
+pub proof fn lemma_cong_lin2(r: int, t1: int, t2: int, v1: int, v2: int, m: int)
+    requires m > 0, cong(r, t1 + t2, m), cong(t1, v1, m), cong(t2, v2, m)
+    ensures cong(r, v1 + v2, m)
+{
+    lemma_cong_add(t1, v1, t2, v2, m);
+}
+/// r = t1 - t2, t1 = v1, t2 = v2 (mod m)  ==>  r = v1 - v2
+pub proof fn lemma_cong_lin2_sub(r: int, t1: int, t2: int, v1: int, v2: int, m: int)
+    requires m > 0, cong(r, t1 - t2, m), cong(t1, v1, m), cong(t2, v2, m)
+    ensures cong(r, v1 - v2, m)
+{
+    lemma_cong_add(t1, v1, t2, v2, m);
+}
+
+/// a row (a2, b2) = a (A, B) + b (C, D) (mod m) of two Bezout rows is a Bezout row for a x + b y
+pub proof fn lemma_bezm_lincomb(m: int, n: int, p: int, aa: int, bb: int, x: int, cc: int, dd: int, y: int, a: int, b: int, a2: int, b2: int)
+    requires m > 0, bezm(aa, bb, n, p, x, m), bezm(cc, dd, n, p, y, m), cong(a2, a * aa + b * cc, m), cong(b2, a * bb + b * dd, m)
+    ensures bezm(a2, b2, n, p, a * x + b * y, m)
+{
+    // a2 n + b2 p = (a A + b C) n + (a B + b D) p = a (A n + B p) + b (C n + D p) = a x + b y
+    lemma_cong_mul(a2, a * aa + b * cc, n, m);
+    lemma_cong_mul(b2, a * bb + b * dd, p, m);
+    lemma_cong_add(a2 * n, (a * aa + b * cc) * n, b2 * p, (a * bb + b * dd) * p, m);
+    lemma_distrib_r(a * aa, b * cc, n); lemma_distrib_r(a * bb, b * dd, p);
+    lemma_mul_assoc(a, aa, n); lemma_mul_assoc(b, cc, n); lemma_mul_assoc(a, bb, p); lemma_mul_assoc(b, dd, p);
+    lemma_distrib_l(a, aa * n, bb * p); lemma_distrib_l(b, cc * n, dd * p);
+    assert((a * aa + b * cc) * n + (a * bb + b * dd) * p == a * (aa * n + bb * p) + b * (cc * n + dd * p));
+    lemma_cong_mul(aa * n + bb * p, x, a, m);
+    lemma_cong_mul(cc * n + dd * p, y, b, m);
+    lemma_cong_add(a * (aa * n + bb * p), a * x, b * (cc * n + dd * p), b * y, m);
+}
+
+/// negated row
+pub proof fn lemma_bezm_neg(m: int, n: int, p: int, aa: int, bb: int, x: int, a2: int, b2: int)
+    requires m > 0, bezm(aa, bb, n, p, x, m), cong(a2, -aa, m), cong(b2, -bb, m)
+    ensures bezm(a2, b2, n, p, -x, m)
+{
+    lemma_mul_neg(1, aa); lemma_mul_neg(1, bb); lemma_mul_neg(1, x);
+    lemma_mul_one(aa); lemma_mul_one(bb); lemma_mul_one(x);
+    assert(-aa == (-1) * aa + 0 * aa); assert(-bb == (-1) * bb + 0 * bb);
+    lemma_bezm_lincomb(m, n, p, aa, bb, x, aa, bb, x, -1, 0, a2, b2);
+}
+} // verus!
+verus! {
+/// the size band of C09: both operands at least 12 bits below the type width
+pub open spec fn gcd_band(n: nat, p: nat, words: nat) -> bool { bitlen(n) + 12 <= 64 * words && bitlen(p) + 12 <= 64 * words }
+
+/// A7 (ASSUMED, not proved): inside the size band the wrapping cofactor arithmetic of gcd_internal never wraps, so the
+/// Bezout identity that is proved modulo 2^(64 N) for the cofactors it returns holds exactly, and the first cofactor is not the
+/// minimum value. The statement is about the cofactors gcd_internal computes (Lehmer-type bounds on the cofactor
+/// matrix, not established here: the code's own analysis stops at "hopefully"; above the band it is known to fail, finding
+/// F8). It is invoked at exactly one place, inv_mod, on the values returned by gcd_internal.
+#[verifier::external_body]
+pub proof fn axiom_a7_cofactors_exact(u: int, v: int, n: nat, p: nat, words: nat)
+    requires gcd_band(n, p, words), p > 0, bezm(u, v, n as int, p as int, 1, super::limbs::pow_w(words) as int),
+        -(super::limbs::pow_w(words) as int) <= 2 * u < super::limbs::pow_w(words) as int,
+    ensures u * n + v * p == 1, 2 * u != -(super::limbs::pow_w(words) as int)
+{}
+
+/// u n + v p == 1  ==>  (u mod p) n = 1 (mod p), for both signs of u
+pub proof fn lemma_inverse_from_bezout(u: int, v: int, n: nat, p: nat, x: nat)
+    requires p > 0, u * n + v * p == 1,
+        u >= 0 ==> x == (u as nat) % p,
+        u < 0 ==> x == (p - ((-u) as nat) % p) as nat,
+    ensures x <= p, p > 1 ==> x < p, cong((x * n) as int, 1, p as int)
+{
+    let pi = p as int; let ni = n as int;
+    // u n = 1 - v p = 1 (mod p)
+    lemma_cong_add_multiple(1, v, pi);
+    lemma_mul_comm(v, pi);
+    assert(cong(u * ni, 1, pi)) by { assert(u * ni == 1 - v * pi); }
+    if u >= 0 {
+        lemma_cong_mod(u, pi);
+        lemma_cong_mul(u % pi, u, ni, pi);
+        vstd::arithmetic::div_mod::lemma_mod_bound(u, pi);
+    } else {
+        let au = -u;
+        let r = au % pi;
+        vstd::arithmetic::div_mod::lemma_mod_bound(au, pi);
+        // p - r = -au = u (mod p)
+        lemma_cong_mod(au, pi);
+        lemma_cong_add(pi, 0, r, au, pi); // cong(p - r, 0 - au)
+        assert(cong(pi, 0, pi)) by { vstd::arithmetic::div_mod::lemma_mod_self_0(pi); vstd::arithmetic::div_mod::lemma_small_mod(0, p); }
+        lemma_cong_mul(pi - r, u, ni, pi);
+        if r == 0 && p > 1 {
+            // then u = 0 (mod p), so 0 = 1 (mod p): impossible for p > 1
+            lemma_cong_mul(au, 0, ni, pi); lemma_mul_neg(au, ni); lemma_mul_one(ni);
+            assert(cong(au * ni, 0, pi));
+            assert(au * ni == -(u * ni));
+            lemma_cong_add(u * ni, 1, au * ni, 0, pi);
+            vstd::arithmetic::div_mod::lemma_small_mod(1, p); vstd::arithmetic::div_mod::lemma_small_mod(0, p);
+            assert(false);
+        }
+    }
+}
+} // verus!
